@@ -1,6 +1,8 @@
 """C19: IGC decoding is total; encode-then-decode keeps a track to format resolution."""
 import base64
+import datetime
 import glob
+import json
 import os
 import random
 import vlib
@@ -8,7 +10,8 @@ import vlib
 
 def pipe(ctx, verdict, cases, name="igc"):
     obs = vlib.run_driver(ctx, "igc", cases)
-    viols = vlib.model_b(ctx, "IGCObs", "Obs.cfg", obs, name="IGCObs")
+    # quick: 16 chunks of ~20 000 light records - small heaps, so that all of them are decided side by side
+    viols = vlib.model_b(ctx, "IGCObs", "Obs.cfg", obs, name="IGCObs", heap="1g" if ctx.quick else "3g")
     for idx, v in viols:
         o = obs[idx]
         verdict.add(name, v["sig"], cases[idx], dict(msg=str(o.get("msg", ""))[:200], text=str(o.get("text", ""))[:300]))
@@ -59,21 +62,388 @@ def mutated_samples(seed, n):
     return out
 
 
+# ---------------------------------------------------------------- seeded tracks (round-trip domain of the quantifier)
+EPOCH = datetime.date(1970, 1, 1).toordinal()
+LASTDAY = datetime.date(2069, 12, 31).toordinal() - EPOCH
+LON, LAT = 180 * 6000000, 90 * 6000000
+
+
+def dayno(y, m, d):
+    return datetime.date(y, m, d).toordinal() - EPOCH
+
+
+def _pos(r, lim, prev):
+    """One coordinate in position units (1/6000000 degree) plus millionths of a unit: extremes, values next to a
+    milli-minute boundary (x.9999999 minutes), tiny negatives, a random walk, uniform."""
+    k = r.randrange(10)
+    if k == 0:
+        return r.choice([lim, -lim, 0, 1, -1, lim - 1, 1 - lim, lim - 100, 100 - lim]), 0
+    if k == 1:      # an exact milli-minute, or a hair below / above it
+        q = 100 * r.randrange(-lim // 100, lim // 100 + 1)
+        e = r.choice([0, 0, -1, 1, -10000, -499999, 10000])
+        return q, (0 if abs(q) == lim else e)
+    if k == 2:      # negative values near zero
+        return r.choice([-1, -99, -100, -101, 0, 0]), r.choice([0, -1, -400000])
+    if k == 3:      # 59.999.. minutes of a degree
+        d = r.randrange(0, lim // 6000000)
+        q = d * 6000000 + r.choice([5999999, 5999900, 5999901, 5999899, 6000000 - 1])
+        return r.choice([1, -1]) * q, r.choice([0, 499999, -1])
+    if k <= 6 and prev is not None:
+        q = max(-lim, min(lim, prev + r.randrange(-3000, 3001)))
+        return q, (0 if abs(q) == lim else r.randrange(-500000, 500001))
+    q = r.randrange(-lim, lim + 1)
+    return q, (0 if abs(q) == lim else r.randrange(-500000, 500001))
+
+
+ALTS = [0, 0, 1, 500, 9999, 10000, 10001, 99999, 100000, 123456, 2000000000, -1, -5, -100000, -2000000000]
+NFIX = [1, 1, 2, 3, 4, 5, 8, 13, 30, 60, 120, 199, 200]
+SPECIAL_STARTS = [(1999, 12, 31, 86399), (1999, 12, 31, 86390), (1970, 1, 1, 0), (2069, 12, 31, 86399), (2069, 12, 30, 86399),
+                  (2000, 2, 28, 86399), (2000, 2, 29, 86399), (2038, 1, 19, 11647), (2024, 2, 29, 0), (2049, 12, 31, 86399),
+                  (1969 + 31, 12, 31, 86399)]
+
+
+def _start(r, year):
+    """A starting instant in `year`: month ends, leap days, 31 Dec, near midnight."""
+    k = r.randrange(6)
+    if k == 0:
+        m, d = 12, 31
+    elif k == 1:
+        m, d = 1, 1
+    elif k == 2:
+        m = r.randrange(1, 13)
+        d = (datetime.date(year + (m == 12), m % 12 + 1, 1) - datetime.timedelta(days=1)).day      # last day of the month
+    elif k == 3:
+        leap = year % 4 == 0 and (year % 100 != 0 or year % 400 == 0)
+        m, d = (2, 29) if leap else (2, 28)
+    else:
+        m = r.randrange(1, 13)
+        d = r.randrange(1, 29)
+    sec = r.choice([86399, 86399 - r.randrange(0, 120), 0, r.randrange(86400), r.randrange(86400)])
+    return dayno(year, m, d), sec
+
+
+def _track(r, day, sec, n, scheme, decreasing=False, outside=False):
+    fixes, plon, plat = [], None, None
+    t = day * 86400 + sec
+    back_at = r.randrange(1, n) if decreasing and n > 1 else -1
+    for i in range(n):
+        if i > 0:
+            sch = scheme if scheme != "mixed" else r.choice(["secs", "mins", "nextday", "gapdays", "months", "years", "hours"])
+            if sch == "secs":
+                t += r.choice([0, 1, 1, 2, 4, 10, 59, 60])
+            elif sch == "mins":
+                t += r.randrange(0, 3600)
+            elif sch == "hours":
+                t += r.randrange(3600, 86400)
+            elif sch == "nextday":
+                t += 86400                                             # the same time of day on the next day
+            elif sch == "gapdays":
+                t += 86400 * r.randrange(1, 40) + r.choice([0, 0, 1, r.randrange(-86399, 86400)])
+            elif sch == "months":
+                t += 86400 * r.choice([28, 29, 30, 31, 59, 61, 92]) + r.choice([0, r.randrange(-86399, 86400)])
+            elif sch == "years":
+                t += 86400 * r.choice([365, 366, 365 * 2, 1461, 3652, 3653]) + r.choice([0, r.randrange(-86399, 86400)])
+            if i == back_at:
+                t -= r.choice([1, 2, 60, 3600, 86399, r.randrange(1, 86400)])       # time going backwards by less than a day
+        if t > LASTDAY * 86400 + 86399 or t < 0:
+            if not fixes:
+                t = max(0, min(t, LASTDAY * 86400 + 86399))
+            else:
+                break
+        lonq, lone = _pos(r, LON, plon)
+        latq, late = _pos(r, LAT, plat)
+        plon, plat = lonq, latq
+        if outside and r.random() < 0.3:
+            lonq, lone = r.choice([1, -1]) * (LON + r.choice([1, 100, 6000000, 120000000])), 0
+        if outside and r.random() < 0.3:
+            latq, late = r.choice([1, -1]) * (LAT + r.choice([1, 100, 6000000, 540000000])), 0
+        k = r.randrange(4)
+        alt = r.choice(ALTS) if k == 0 else r.randrange(0, 10001) if k < 3 else r.randrange(-20000, 120001)
+        altf = r.choice([0, 0, 0, 1, 500, 999, r.randrange(1000)])
+        f = dict(lonq=lonq, latq=latq, alt=alt, t=[t // 86400, t % 86400])
+        if lone:
+            f["lone"] = lone
+        if late:
+            f["late"] = late
+        if altf:
+            f["altf"] = altf
+        fixes.append(f)
+    return dict(fam="tracks", track=fixes)
+
+
+SCHEMES = ["secs", "mins", "hours", "nextday", "gapdays", "months", "years", "mixed", "secs", "mixed"]
+
+
+def seeded_tracks(seed, sweeps, quick):
+    """At least `sweeps` tracks starting in EVERY year 1970..2069, the special starts (century, leap days, ends of the
+    window), some with decreasing times or positions outside the domain (decided for totality only by InDomain)."""
+    r = random.Random(seed * 7919 + 19)
+    out = []
+    nfix = (lambda: r.choice(NFIX[:9] * 4 + NFIX)) if quick else (lambda: r.choice(NFIX + [r.randrange(1, 201)]))
+    for sw in range(sweeps):
+        for year in range(1970, 2070):
+            day, sec = _start(r, year)
+            out.append(_track(r, day, sec, nfix(), SCHEMES[(year + sw) % len(SCHEMES)]))
+        for (y, m, d, sec) in SPECIAL_STARTS:
+            for sch in ("secs", "nextday", "mixed"):
+                out.append(_track(r, dayno(y, m, d), sec, nfix(), sch))
+        for _ in range(12):
+            day, sec = _start(r, r.randrange(1970, 2070))
+            out.append(_track(r, day, sec, max(2, nfix()), r.choice(SCHEMES), decreasing=True))
+        for _ in range(6):
+            day, sec = _start(r, r.randrange(1970, 2070))
+            out.append(_track(r, day, sec, nfix(), r.choice(SCHEMES), outside=True))
+    out.append(dict(fam="tracks", track=[]))
+    return out
+
+
+# ---------------------------------------------------------------- seeded line-level files (headers, day roll-over)
+HPAL = [("F", "PLT", "PILOTINCHARGE", True, "Bloggs Bill D"), ("F", "GTY", "GLIDERTYPE", True, "Schleicher ASH-25"),
+        ("F", "GID", "GLIDERID", True, "ABCD-1234"), ("F", "DTM", "100GPSDATUM", True, "WGS-1984"),
+        ("F", "RFW", "FIRMWAREVERSION", True, "6.4"), ("F", "FTY", "FRTYPE", True, "Manufacturer,Model"),
+        ("F", "FXA", "", False, "035"), ("O", "SIT", "Site", True, "Talloires"), ("P", "TZN", "TIMEZONE", True, "+02"),
+        ("F", "CID", "COMPETITIONID", True, "XYZ-78910"), ("F", "CCL", "", False, "15M"), ("F", "PLT", "", True, "x"),
+        ("F", "CM2", "CREW2", True, ""), ("F", "GPS", "", False, "MarconiCanada,Superstar,12ch,10000m"),
+        ("F", "PRS", "PRESSALTSENSOR", True, "Sensyn,XYZ1111,11000m"), ("F", "A00", "", False, "0")]
+
+
+def H(h):
+    return dict(k="H", src=h[0], key=h[1], extra=h[2], colon=h[3], value=h[4])
+
+
+def HD(day, short=False):
+    d = datetime.date.fromordinal(day + EPOCH)
+    return dict(k="HDTE", dd=d.day, mm=d.month, yy=d.year % 100, short=short)
+
+
+def B(sec, ln=35, ok=True):
+    return dict(k="B", len=ln, sec=sec, ok=ok)
+
+
+A, X, BLANK = dict(k="A"), dict(k="X"), dict(k="blank")
+IRECS = [dict(k="I", n=1, ents=[[36, 37, "LAD"]]), dict(k="I", n=1, ents=[[36, 36, "TDS"]]),
+         dict(k="I", n=2, ents=[[36, 37, "LAD"], [38, 39, "LOD"]]), dict(k="I", n=1, ents=[[38, 40, "TDS"]])]
+
+
+def rollover_files():
+    """Hand-written line-level flights (every run): several day roll-overs in one file, across month / year / century /
+    window ends, date headers after a roll-over (current, next, stale), B records before any date header."""
+    out = []
+    ends = [(1999, 12, 31), (2069, 12, 31), (1970, 1, 31), (2024, 2, 28), (2023, 2, 28), (2000, 2, 28), (1970, 12, 31),
+            (2038, 1, 18), (2049, 12, 31), (1985, 6, 30)] + [(2001 + 5 * m, m, 28) for m in range(1, 13)] + [(1971 + 7 * m, m, 30) for m in range(1, 13) if m != 2]
+    for (y, m, d) in ends:
+        d0 = dayno(y, m, d)
+        out.append([A, HD(d0), B(86399), B(0), B(86399), B(0), B(0), B(43200), B(43199)])       # three roll-overs
+        out.append([A, H(HPAL[0]), HD(d0), H(HPAL[6]), B(80000), B(100), B(50), B(40), B(39), B(86399), B(86398)])
+        out.append([A, HD(d0), B(86399), B(10), HD(d0 + 1), B(20), B(5), HD(d0 + 2), B(6), HD(d0 + 3), B(6), B(7)])
+        out.append([A, HD(d0), B(86399), B(10), HD(d0), B(20)])                                 # stale header after a roll-over
+        out.append([A, HD(d0), B(86399), B(10), HD(d0 + 1), B(5), HD(d0), B(4), B(3)])
+        out.append([A, B(100), B(50), HD(d0), B(10), B(5)])                                     # fixes before any date
+        out.append([A, B(86399), B(0), B(86399), B(0)])
+        out.append([A, HD(d0), B(0), B(0), B(86399), B(86399), B(0)])                           # equal times do not roll
+    return [dict(fam="glines", lines=ls) for ls in out]
+
+
+def seeded_glines(seed, n):
+    r = random.Random(seed * 104729 + 7)
+    out = rollover_files()
+    while len(out) < n + 200:
+        ls = [A]
+        for _ in range(r.choice([0, 0, 1, 2, 5])):
+            ls.append(H(r.choice(HPAL)))
+        day = dayno(r.randrange(1970, 2070), r.randrange(1, 13), r.choice([1, 15, 27, 28]))
+        day += r.choice([0, 0, 1, 2, 3])
+        if r.random() < 0.9:
+            ls.append(HD(day))
+        sec = r.choice([0, 86399, 86390, r.randrange(86400)])
+        messy = r.random() < 0.25
+        for _ in range(r.choice([1, 2, 3, 5, 8, 20, 60])):
+            k = r.randrange(20)
+            if k < 12:
+                sec = min(86399, sec + r.choice([0, 1, 1, 4, 60, 3600]))
+            elif k < 16:
+                sec = r.choice([0, 1, r.randrange(0, sec + 1)])                     # time of day goes backwards: day roll-over
+                day += 1
+            elif k == 16:
+                ls.append(HD(day))                                                  # a (re-)emitted header for the day reached
+            elif k == 17:
+                ls.append(H(r.choice(HPAL)))
+            elif k == 18:
+                day += r.choice([1, 1, 2, 30, 365])
+                ls.append(HD(day))
+                sec = r.randrange(86400)
+            elif messy:
+                ls.append(r.choice([X, BLANK, HD(day, short=True), B(sec, 34), B(sec, 36), B(sec, 40, ok=False), A] + IRECS))
+            ls.append(B(sec))
+        out.append(dict(fam="glines", lines=ls))
+    return out
+
+
+# ---------------------------------------------------------------- byte-stream classes of the quantifier
+def _b(data, parts=None):
+    c = dict(fam="bytes", b64=base64.b64encode(bytes(data)).decode())
+    if parts:
+        c["parts"] = [dict(b64=base64.b64encode(bytes(p)).decode(), rep=n) for p, n in parts]
+    return c
+
+
+GOODB = b"B1234564730123N00830456EA0050000600"
+HEAD = b"AXXX001\nHFDTE250809\n"
+
+
+def _forged_i(r):
+    """An I record: a contiguous, gapped, overlapping, reversed, over-announced or truncated extension table."""
+    n = r.choice([0, 1, 1, 2, 3, 5, 9, 20, 99, r.randrange(100)])
+    pos = 36
+    ents = b""
+    for _ in range(min(n, r.choice([n, n, n, max(0, n - 1), n + 1]), 30)):
+        w = r.choice([1, 1, 2, 3, 5, 10, 60])
+        start = pos if r.random() < 0.75 else r.choice([pos - 1, pos + 1, 0, 1, 35, 99, r.randrange(100)])
+        stop = start + w - 1 if r.random() < 0.85 else r.choice([start - 1, 0, 99, r.randrange(100)])
+        code = r.choice([b"LAD", b"LOD", b"TDS", b"TDS", b"FXA", b"ENL", b"SIU", b"tds", b"\x00\x00\x00", b"LA"])
+        ents += b"%02d%02d" % (start % 100, stop % 100) + code
+        pos = max(pos, stop % 100 + 1)
+    line = b"I%02d" % n + ents
+    k = r.randrange(8)
+    if k == 0:
+        line = line[:r.randrange(len(line) + 1)]
+    elif k == 1 and len(line) > 3:
+        i = r.randrange(1, len(line))
+        line = line[:i] + r.choice([b"-", b"X", b" ", b"\xff", b"+"]) + line[i + 1:]
+    elif k == 2:
+        line = b"I" + r.choice([b"-1", b"-9", b"  ", b"1", b"", b"9A", b"00", b"99"]) + ents
+    return line, pos - 1
+
+
+def _brec(r, blen):
+    """A B record around the announced length: truncated, exact, over-long, with non-digits in any column."""
+    ln = r.choice([blen, blen, blen - 1, blen + 1, 35, 34, 36, 1, 2, 7, 15, 24, 99, 100, 300, r.randrange(0, 120)])
+    fill = r.choice([b"0", b"9", b"5", b"-", b"A", b" ", b"\x00"])
+    line = bytearray((GOODB + fill * 400)[:max(0, ln)])
+    for _ in range(r.choice([0, 0, 0, 1, 1, 2, 6])):
+        if line:
+            line[r.randrange(len(line))] = r.choice(b"0123456789-NSEWAVXZ .\x00\xff+")
+    if r.random() < 0.2 and len(line) >= 7:
+        line[1:7] = r.choice([b"235959", b"000000", b"240000", b"236000", b"235960", b"-10000", b"000001"])
+    return bytes(line)
+
+
+def byte_classes(seed, n):
+    r = random.Random(seed * 15485863 + 3)
+    out = []
+    # fixed members of every class
+    fixed = [b"", b"\n", b"\r", b"\r\n", b"\x00", b"A", b"B", b"AXXX\nB", b"AXXX\nI", b"AXXX\nH", b"AXXX\nI0", b"AXXX\nI01", b"AXXX\nHF", b"AXXX\nHFDTE",
+             HEAD.replace(b"\n", b"\r") + GOODB + b"\r" + GOODB + b"\r",                       # CR-only: one single line
+             HEAD + GOODB + b"\r\r\n" + GOODB + b"\n\r" + GOODB + b"\r\n\n\n" + GOODB,          # mixed line endings
+             HEAD + GOODB[:20] + b"\x00" + GOODB[21:] + b"\n" + b"\x00" * 35 + b"\nB" + b"\x00" * 34 + b"\n",
+             b"HFDTE250809\n" + GOODB + b"\n" + GOODB + b"\n",                                   # no A record at all
+             b"axxx\nHFDTE250809\n" + GOODB + b"\n", b"\x13AXXX\n" + GOODB + b"\n", b"xyz AXXX\n" + GOODB + b"\n",
+             b"\xef\xbb\xbf\x13 AXXX\n" + GOODB + b"\n", b"ZZZ\nAXXX\n" + GOODB + b"\n", b"\xffAXXX\nHFDTE010170\n" + GOODB,
+             HEAD + b"I013636TDS\n" + GOODB + b"5\n" + GOODB + b"\n" + GOODB + b"X\n" + GOODB + b"-\n",
+             HEAD + b"I023637LAD3838LOD\n" + GOODB + b"-5-\n" + GOODB + b"--5\n" + GOODB + b"999\n",
+             HEAD + b"I013699TDS\n" + GOODB + b"0" * 64 + b"\n" + GOODB + b"0" * 63 + b"\n",
+             HEAD + b"I" + b"99" + b"".join(b"%02d%02dFXA" % (36 + i, 36 + i) for i in range(64)) + b"\n" + GOODB + b"1" * 64 + b"\n"]
+    out += [_b(x) for x in fixed]
+    for cut in range(0, 37):                                                                    # a good B record cut at every column
+        out.append(_b(HEAD + GOODB[:cut] + b"\n" + GOODB + b"\n"))
+    for col in range(1, 35):                                                                    # ... and damaged at every column
+        out.append(_b(HEAD + GOODB[:col] + r.choice([b"X", b"-", b"\x00", b" "]) + GOODB[col + 1:] + b"\nI013636TDS\n" + GOODB[:col] + b"-" + GOODB[col + 1:] + b"7\n"))
+    # long things (by repetition in the driver)
+    out += [_b(HEAD, [(b"I013636TDS\n", 3000), (GOODB + b"1\n", 3)]), _b(HEAD, [(b"I00\n", 5000), (GOODB + b"\n", 2)]),
+            _b(HEAD, [(b"I01\n", 2000)]), _b(HEAD, [(b"I013737TDS\n" + GOODB + b"\n", 1500)]),
+            _b(HEAD + b"B", [(b"1", 70000), (b"\n" + GOODB + b"\n", 1)]), _b(HEAD + GOODB + b"\nH", [(b"F", 200000), (b"\n" + GOODB + b"\n", 1)]),
+            _b(b"", [(b"x", 66000), (b"\nAXXX\n" + GOODB + b"\n", 1)]), _b(HEAD + b"I", [(b"9", 65000), (b"\n", 1)]),
+            _b(HEAD, [(GOODB + b"\n", 4000)]), _b(b"", [(b"\n", 100000), (HEAD + GOODB, 1)]), _b(HEAD + GOODB, [(b"\x00", 300000)]),
+            _b(HEAD, [(b"HFDTE320809\n", 2500)]), _b(HEAD, [(GOODB[:34] + b"\n", 4000)]), _b(HEAD, [(GOODB, 1800)]),
+            _b(HEAD + b"I033638LAD3940LOD4141TDS\n", [(GOODB + b"99\n", 700), (GOODB + b"998877\n", 700)])]
+    while len(out) < n:
+        k = r.randrange(10)
+        if k == 0:                                                                              # random bytes
+            out.append(_b(r.randbytes(r.choice([1, 8, 35, 36, 200, 2000]))))
+        elif k == 1:                                                                            # random bytes with record structure
+            lines = [r.choice([b"A", b"B", b"H", b"I", b"", b"HF", b"HFDTE", b"I01", b"I02"]) + r.randbytes(r.choice([0, 2, 6, 7, 34, 35, 40, 99])).replace(b"\n", b"0")
+                     for _ in range(r.randrange(1, 30))]
+            out.append(_b(b"A\n" * r.randrange(2) + r.choice([b"\n", b"\r\n", b"\r"]).join(lines)))
+        elif k <= 5:                                                                            # forged I tables, then B records around the announced length
+            data = bytearray(r.choice([HEAD, HEAD, b"AXXX\n", b""]))
+            blen = 35
+            for _ in range(r.choice([1, 1, 2, 3, 6])):
+                line, b2 = _forged_i(r)
+                data += line + r.choice([b"\n", b"\n", b"\r\n"])
+                blen = max(35, min(99, b2))
+                for _ in range(r.choice([1, 2, 4])):
+                    data += _brec(r, r.choice([blen, blen, 35, 99])) + b"\n"
+            out.append(_b(data))
+        elif k == 6:                                                                            # over-long and truncated B records
+            out.append(_b(HEAD + b"\n".join(_brec(r, 35) for _ in range(r.randrange(1, 12)))))
+        elif k == 7:                                                                            # line endings and NUL bytes
+            recs = [b"AXXX001", b"HFDTE311299", GOODB, b"I013636TDS", GOODB + b"5", b"B235959" + GOODB[7:], b"B000001" + GOODB[7:], b"", b"\x00", GOODB[:r.randrange(36)]]
+            data = b"".join(r.choice(recs) + r.choice([b"\n", b"\r\n", b"\r", b"\r\r\n", b"\n\r", b"\x00\n", b"\x0b", b"\x0c", b"\x1a", b"\xe2\x80\xa8"])
+                            for _ in range(r.randrange(1, 25)))
+            out.append(_b(data))
+        elif k == 8:                                                                            # A record missing / late / after noise
+            pre = r.choice([b"", b"axxx\n", b"HFDTE010100\n", b"\x13", b"\xef\xbb\xbf", b" ", b"noise ", b"NOISE ", b"1234", b"\x00", b"B\n", GOODB + b"\n"])
+            a = r.choice([b"", b"AXXX\n", b"A\n", b"xA\n", b"AA\n"])
+            out.append(_b(pre + a + b"HFDTE010100\n" + GOODB + b"\n" + r.choice([b"", b"AXXX\n" + GOODB + b"\n"])))
+        else:                                                                                   # date headers of every shape
+            hs = [b"HFDTE" + r.choice([b"", b"0", b"0101", b"010100", b"320100", b"011300", b"0101-1", b"-10100", b"01010", b"DATE:010100,01", b"DATE:0101", b":", b"::", b"010100   ", b"\xff\xff\xff\xff\xff\xff"]) for _ in range(3)]
+            hs += [b"H" + r.randbytes(r.randrange(0, 12)).replace(b"\n", b":"), b"HODTE311269", b"HFDTE311269", b"HFDTE010170", b"H", b"HF", b"HFD", b"HFDT"]
+            r.shuffle(hs)
+            out.append(_b(b"AXXX\n" + b"".join(h + b"\n" + b"B235959" + GOODB[7:] + b"\nB000000" + GOODB[7:] + b"\n" for h in hs[:r.randrange(1, 7)])))
+    return out
+
+
 def run(ctx, verdict):
     tier = "quick" if ctx.quick else "thorough"
-    cases = []
     ctx.coverage_extra["model_a"] = []
-    for fam in ("lines", "tracks"):
+    from concurrent.futures import ThreadPoolExecutor
+
+    def model(fam, workers):
+        # vlib.model_a without its (unsynchronised) additions to the counters of ctx: those are made below, in this thread
         cfg = "IGC_%s_%s.cfg" % (fam, tier)
-        out, r = vlib.model_a(ctx, "IGCModel", cfg, ["CASE"], workers=8)
-        cs = sorted(out["CASE"], key=vlib.digest)
-        ctx.coverage_extra["model_a"].append(dict(cfg=cfg, cases=len(cs), states=r["distinct"]))
-        cases += cs
-    vlib.note_cases(ctx, cases, nontrivial=lambda c: c["fam"] == "tracks" or c.get("nfix", 0) > 0)
-    cases += mutated_samples(ctx.seed, 3000 if ctx.quick else 60000)
+        cs = []
+        r = vlib.tlc(ctx, "IGCModel", cfg, workers=workers, on=lambda tag, obj: cs.append(obj) if tag == "CASE" else None, heap="8g")
+        vlib.log("[modelA] IGCModel/%s: %d generated, %d distinct, %d emitted, %.1fs" % (cfg, r["generated"], r["distinct"], len(cs), r["seconds"]))
+        cs.sort(key=json.dumps)                            # TLC's workers emit in any order; its ToJson orders the fields
+        return dict(cfg=cfg, cases=len(cs), states=r["distinct"], generated=r["generated"]), cs
+
+    def seeded():
+        q = ctx.quick
+        return (seeded_tracks(ctx.seed, 1 if q else 300, q), seeded_glines(ctx.seed, 400 if q else 150000),
+                byte_classes(ctx.seed, 700 if q else 400000), mutated_samples(ctx.seed, 3000 if q else 150000))
+    # the three enumerations, the seeded generators and the driver build run side by side
+    with ThreadPoolExecutor(max_workers=5) as ex:
+        fl, ft, fr = ex.submit(model, "lines", 8), ex.submit(model, "tracks", 4), ex.submit(model, "rolls", 2 if ctx.quick else 4)
+        fs, fd = ex.submit(seeded), ex.submit(ctx.drive)
+        (ml, lines), (mt, tracks), (mr, rolls), (strk, sgl, sby, smut), _ = fl.result(), ft.result(), fr.result(), fs.result(), fd.result()
+    for m in (ml, mt, mr):
+        ctx.states += m["states"]
+        ctx.transitions += m.pop("generated")
+        ctx.coverage_extra["model_a"].append(m)
+    ctx.coverage_extra["seeded"] = dict(tracks=len(strk), track_fixes=sum(len(c["track"]) for c in strk),
+                                        track_start_years=len({datetime.date.fromordinal(c["track"][0]["t"][0] + EPOCH).year for c in strk if c["track"]}),
+                                        line_files=len(sgl), byte_streams=len(sby), mutated=len(smut))
+    cases = lines + tracks + rolls + strk + sgl
+    # non-trivial = a round trip or a line sequence with at least one fix; the enumerated cases are distinct states of the model
+    ctx.distinct.update(("lines", i) for i, c in enumerate(lines) if c["nfix"] > 0)
+    ctx.distinct.update(("tracks", i) for i in range(len(tracks)))
+    ctx.distinct.update(("rolls", i) for i in range(len(rolls)))
+    ctx.distinct.update(vlib.digest(c) for c in strk + sgl)
+    ctx.samples += [lines[0], tracks[0], strk[1], sgl[0]]
+    cases += sby + smut
+    random.Random(ctx.seed).shuffle(cases)            # every driver / TLC chunk gets the same mix of light and heavy records
     pipe(ctx, verdict, cases)
     ctx.assumptions += ["line-level family: records rendered by the driver from the model's abstract lines (fixed valid "
                         "position fields; extension columns padded with 0); timestamps are compared only once a valid date "
-                        "header was seen", "byte-stream family: seeded mutations (byte flips, deletions, truncated and spliced "
-                        "records, forged I records) of the repository's sample files: totality and whole fixes only",
-                        "round trip: positions in units of 1/6000000 degree, tolerance 1/60000 degree + 1 unit"]
+                        "header was seen; seeded line-level files (H records of a palette, long flights with several day "
+                        "roll-overs) are decided by evaluating the decoder model in IGCObs; after a date header that names a day "
+                        "before the last fix the instants are not judged",
+                        "byte-stream family: seeded mutations (byte flips, deletions, truncated and spliced records, forged I "
+                        "records) of synthetic files, and seeded classes (random bytes, forged I tables with B records around the "
+                        "announced length, B records cut / damaged at every column, CR-only and mixed line endings, NUL bytes, "
+                        "missing / late A record, thousands of I records, lines beyond 64 KiB): totality, whole fixes, error kind only",
+                        "round trip: positions in units of 1/6000000 degree (seeded tracks: plus millionths of a unit), tolerance "
+                        "1/60000 degree + 1 unit; fractional altitudes accept either neighbouring integer; decreasing times and "
+                        "positions outside the domain: totality only; header texts are compared only through the first six "
+                        "characters of DTE values (round trip) or for files rendered by the driver (line level)",
+                        "an empty non-nil igc.Errors is not distinguished from nil (the statement does not say which)"]
